@@ -276,7 +276,16 @@ def build_body(spec, tag, name, call, force_final=False):
     return body
 
 
-def run_case(ex, observers=None, conn_kw=None):
+PRELUDE_POOL = {'insts': [{'k': 'inst', 'classname': 'CIM_Prelude',
+                           'properties': [], 'qualifiers': [], 'path': {
+                               'k': 'ipath', 'classname': 'CIM_Prelude',
+                               'keys': [('k', 'string', 'prelude')],
+                               'namespace': 'root/cimv2', 'host': 'h'}}],
+                'classes': [], 'qdecls': [], 'retval': ('uint8', False, 0),
+                'outs': [], 'eos': True, 'ctx': 'c'}
+
+
+def run_case(ex, observers=None, conn_kw=None, prelude=False):
     """
     Run one example; returns (outcome, value-or-exception, adapter, bodies)
     outcome in 'returned' | 'error' (pywbem.Error) | 'leak' | 'local'
@@ -287,6 +296,14 @@ def run_case(ex, observers=None, conn_kw=None):
 
     def responder(req):
         i = len(adapter.requests) - 1
+        if prelude:
+            if i == 0:
+                body = R.valid_response(
+                    'IMETHODCALL', 'EnumerateInstanceNames',
+                    PRELUDE_POOL).encode('utf-8')
+                bodies.append(body)
+                return Resp(body)
+            i -= 1
         specs = ex['responses']
         spec = specs[min(i, len(specs) - 1)]
         tag, name = request_method_name(req.body)
@@ -313,6 +330,10 @@ def run_case(ex, observers=None, conn_kw=None):
     if observers:
         observers(conn)
     try:
+        if prelude:
+            # a successful operation before the one under test, on the same
+            # connection
+            conn.EnumerateInstanceNames('CIM_Prelude')
         try:
             r = O.invoke(conn, call)
             return 'returned', r, adapter, bodies, conn
